@@ -228,6 +228,15 @@ def seeded(argv):
     finally:
         shutil.rmtree(base, ignore_errors=True)
         subprocess.run(["git", "-C", core.REPO, "worktree", "prune"], capture_output=True)
+    evp = os.path.join(core.VERIF, "evidence", "selftest-seeded.json")
+    if only and os.path.exists(evp):
+        # a partial re-run (ids given on the command line) updates those rows of the last full run
+        try:
+            prev = json.load(open(evp)).get("results", [])
+        except Exception:  # noqa
+            prev = []
+        done = {r["id"] for r in results}
+        results = sorted([r for r in prev if r.get("id") not in done] + results, key=lambda r: r.get("id", ""))
     caught = sum(1 for r in results if r.get("status") == "caught")
     quiet = sum(1 for r in results if r.get("status") == "quiet-as-expected")
     print("selftest-seeded: %d caught by every check expected to, %d quiet as expected, of %d; wall=%.0fs" % (caught, quiet, len(results), time.time() - t0))
